@@ -1,6 +1,8 @@
 #!/bin/sh
 # usage: try.sh <patch.diff> <check args...> ; applies the patch to /repo, runs the check, reverts.
+# Refuses to run when /repo has uncommitted changes (the revert would destroy them).
 p="$1"; shift
+if [ -n "$(git -C /repo status --porcelain)" ]; then echo "refusing: /repo has uncommitted changes" >&2; exit 3; fi
 git -C /repo apply "$p" || exit 3
-trap 'git -C /repo checkout -- .' EXIT INT TERM
+trap 'git -C /repo checkout -- . ; git -C /repo clean -fdq -- node' EXIT INT TERM
 /verif/check "$@" 2>&1 | grep -v "^  evidence" | tail -6
